@@ -1,14 +1,4 @@
-import os
-
 from lib import flow, vlib
-
-# deviations found on the pinned tree, proposed as KNOWN_FINDINGS.json entries (id, property, what)
-PROPOSED_KF = [
-    dict(id='C10_PARTIAL_OVERLAP', property='C10', what='specifications "*.c" and "d.*" are both accepted and both select (d, c)'),
-    dict(id='C10_EXCLUDE_DROPPED', property='C10', what='delete / failed create drops exclusions still implied by another task (lo.Without removes every occurrence)'),
-    dict(id='C10_USERROLE_STICKY', property='C10', what='the user-role flag of the book-keeping is not taken back on delete / failed create'),
-    dict(id='C10_RELOAD_USERROLE', property='C10', what='ReloadTask keeps the user-role flag of the task loaded last instead of OR-ing'),
-]
 
 ASSUME = [
     "environment: real server.MetaCDC built through the verif hooks over a durable in-memory meta store with the etcd "
@@ -52,11 +42,6 @@ C = dict(
 
 
 def run(tier, replay=None):
-    if os.environ.get("VERIF_ASSUME_KF"):
-        # selftest aid (selftest/C10.md): treat the proposed findings as if they were recorded, so that a run on the
-        # pinned tree is green and a mutant shows up as a NEW violation.  Never set in registered commands.
-        orig = vlib.known_findings
-        vlib.known_findings = lambda prop: orig(prop) + [k for k in PROPOSED_KF if k["property"] == prop]
     if not replay:
         # the as-built configuration must exhibit the modelled deviations (sanity of the deviation switches)
         r = vlib.run_tlc("TaskBook", "TaskBook_AsBuilt.cfg", workers=4, timeout=300)
